@@ -1,0 +1,73 @@
+//go:build verif
+
+package server
+
+import (
+	"sort"
+	"time"
+
+	"github.com/fatedier/frp/pkg/auth"
+	netpkg "github.com/fatedier/frp/pkg/util/net"
+)
+
+// Hooks for the verification harness (build tag `verif`); not compiled otherwise.
+// Read-only views of the session table plus two accessors; nothing here changes the behaviour of
+// existing code paths.
+
+// VerifAuthSession is one row of the ControlManager table.
+type VerifAuthSession struct {
+	RunID      string
+	AlwaysPass bool // the session's verifier is auth.AlwaysPassVerifier
+	Pool       int  // work connections currently queued in workConnCh
+	PoolCap    int
+	Proxies    []string // sorted names of ctl.proxies
+	InManager  []bool   // pxyManager.Exist(name) for each of Proxies
+	LastPing   int64    // UnixNano of ctl.lastPing
+}
+
+// VerifAuthSessions returns the session table sorted by run id.
+func (svr *Service) VerifAuthSessions() []VerifAuthSession {
+	svr.ctlManager.mu.RLock()
+	ctls := make(map[string]*Control, len(svr.ctlManager.ctlsByRunID))
+	for id, c := range svr.ctlManager.ctlsByRunID {
+		ctls[id] = c
+	}
+	svr.ctlManager.mu.RUnlock()
+
+	out := make([]VerifAuthSession, 0, len(ctls))
+	for id, c := range ctls {
+		s := VerifAuthSession{
+			RunID:      id,
+			AlwaysPass: c.authVerifier == auth.Verifier(auth.AlwaysPassVerifier),
+			Pool:       len(c.workConnCh),
+			PoolCap:    cap(c.workConnCh),
+		}
+		if t, ok := c.lastPing.Load().(time.Time); ok {
+			s.LastPing = t.UnixNano()
+		}
+		c.mu.RLock()
+		for name := range c.proxies {
+			s.Proxies = append(s.Proxies, name)
+		}
+		c.mu.RUnlock()
+		sort.Strings(s.Proxies)
+		for _, name := range s.Proxies {
+			s.InManager = append(s.InManager, svr.pxyManager.Exist(name))
+		}
+		out = append(out, s)
+	}
+	sort.Slice(out, func(i, j int) bool { return out[i].RunID < out[j].RunID })
+	return out
+}
+
+// VerifAuthInternalListener returns the listener handled with internal = true (the one the ssh
+// tunnel gateway feeds).
+func (svr *Service) VerifAuthInternalListener() *netpkg.InternalListener {
+	return svr.sshTunnelListener
+}
+
+// VerifAuthSetVerifier replaces the verifier NewService built from the configuration (used to put a
+// stub OIDC token verifier in place; the real one needs an issuer on the network). Call before Run.
+func (svr *Service) VerifAuthSetVerifier(v auth.Verifier) {
+	svr.authVerifier = v
+}
